@@ -129,7 +129,12 @@ def fam_sizes(rng, n, kinds=('upload', 'copy', 'download')):
                         'offset': rng.choice([1, 2])},
                        {'kind': 'upload', 'src': 'nonseekable', 'size': size},
                        {'kind': 'upload', 'src': 'nonseekable', 'size': size,
-                        'src_reads': rng.choice([[1], [2, 1], [3], [1, 3]])}]
+                        'src_reads': rng.choice([[1], [2, 1], [3], [1, 3]])},
+                       # a pipe that fills the threshold probe and then reads short
+                       {'kind': 'upload', 'src': 'nonseekable', 'size': size,
+                        'src_reads': rng.choice([[thr, 1], [thr, 1, 2], [thr + 1, 1]])},
+                       {'kind': 'upload', 'src': 'nonseekable', 'size': size,
+                        'src_reads': [1, 2], 'subs': [{'provide_size': size}, {}]}]
             if 'copy' in kinds:
                 ts += [{'kind': 'copy', 'size': size}]
             if 'download' in kinds:
@@ -224,6 +229,28 @@ def fam_slow_requests(names, rng, n, cancels=True):
                             sc['cancel'] = {'how': 'future', 'x': 0, 'gate': g}
                             jobs += S.det_schedules(sc, 0, rng)[1:]
     return ('slow-request', jobs)
+
+
+def fam_stream_upload_failing(rng, n):
+    """A long stream upload that fails or is cancelled early while its first part request
+    is slow: the submission thread goes on reading the stream, and the parts it reads must
+    still be throttled by the in-memory limit."""
+    jobs = []
+    for src in ('nonseekable', 'seekable'):
+        for size, upc, R in ((11, 1, 1), (13, 2, 1), (12, 2, 2), (9, 1, 2)):
+            sc0 = {'name': 'stream-upload-failing', 'cfg': {'up_chunks': upc, 'R': R},
+                   'transfers': [{'kind': 'upload', 'src': src, 'size': size}],
+                   'latency': [{'op': 'UploadPart', 'phase': 'begin', 'nth': 1, 'd': 1.0}]}
+            steps, ncalls = S.probe(sc0)
+            for q in (2, 3):
+                sc = copy.deepcopy(sc0)
+                sc['faults'] = [{'on': 's3', 'seq': q, 'x': 0}]
+                jobs += S.det_schedules(sc, n, rng)
+            for g in range(20, steps + 4, 9):
+                sc = copy.deepcopy(sc0)
+                sc['cancel'] = {'how': 'future', 'x': 0, 'gate': g}
+                jobs += S.det_schedules(sc, 0, rng)
+    return ('stream-upload-failing', jobs)
 
 
 def fam_cleanup_faults(rng, n):
@@ -429,6 +456,7 @@ def families(pid, tier, rng):
             fam_failing_abort(rng, 2 * k),
             fam_small_queues_faults(rng, 1 * k),
             fam_mixes(rng, 40 * k, 3, shutdown_only=True),
+            fam_mixes(rng, 40 * k, 3, faults=True, shutdown_only=True),
         ]
     if pid == 'C05':
         return [
@@ -481,7 +509,12 @@ def families(pid, tier, rng):
         fams.append(fam_provide(rng, 4 * k))
         return fams
     if pid == 'C09':
+        j2 = []
+        for n_ in ['up-path-mp', 'up-path-1', 'up-ns-mp', 'up-seek-mp', 'dl-path-mp', 'dl-ns-mp',
+                   'dl-seek-1', 'copy-mp', 'copy-1']:
+            j2 += S.schedules(S.with_subs(S.base(n_), [{}, {}, {}]), 3 * k, rng)
         return [
+            ('three-subscribers', j2),
             fam_schedules(S.ALL, 8 * k, rng),
             fam_retries(['up-path-mp', 'up-seek-mp', 'up-ns-mp', 'up-path-1',
                          'up-ns-1'], rng, 1 * k),
@@ -503,6 +536,7 @@ def families(pid, tier, rng):
             fam_streams(['dl-ns-mp'], rng, per=1),
             fam_contention(rng, 40 * k),
             fam_provide(rng, 3 * k),
+            fam_stream_upload_failing(rng, 1 * k),
         ]
     if pid == 'C18':
         return [
@@ -533,7 +567,7 @@ def families(pid, tier, rng):
 CLAUSES = {
     'C01': 'C01_', 'C02': ('C02_', 'C16_'), 'C03': ('C03_', 'C05_', 'C06_'),
     'C04': 'C04_', 'C05': 'C05_',
-    'C06': 'C06_', 'C07': ('C07_', 'C05_', 'C06_', 'C04_'), 'C08': 'C08_', 'C09': 'C09_',
+    'C06': 'C06_', 'C07': ('C07_', 'C05_', 'C06_', 'C04_'), 'C08': ('C08_', 'C04_'), 'C09': 'C09_',
     'C10': ('C10_', 'C11_', 'C16_', 'C04_'),
     'C11': 'C11_', 'C12': 'C12_', 'C14': 'C14_', 'C16': 'C16_', 'C17': 'C17_',
     'C18': ('C18_', 'C01_', 'C02_', 'C03_', 'C04_'),
@@ -585,7 +619,7 @@ def run(pid, tier, seed, extra=None):
     if extra:
         extra(ck, tier, seed)
     run_e2e(ck, pid, tier, seed)
-    if pid in ('C01', 'C02', 'C05', 'C06'):
+    if pid in ('C01', 'C02', 'C03', 'C05', 'C06'):
         from checks import legacy_e2e
         legacy_e2e.run_e2e(ck, pid, tier, seed)
     from checks import pconf_e2e
@@ -600,6 +634,13 @@ def run(pid, tier, seed, extra=None):
     if pid == 'C02':
         from checks import c19
         c19.facet(ck, tier, seed, ['R_ResultTruthful', 'R_AgreesAtDone'], 'C02_PP_')
+    if pid == 'C03':
+        from checks import c19
+        c19.facet(ck, tier, seed, ['R_ResultTruthful'], 'C03_PP_',
+                  conf_kinds=('sub_exc', 'sub_done', 'w_exc', 'w_done'))
+    if pid == 'C04':
+        from checks import c19
+        c19.facet(ck, tier, seed, ['C19_JobsNeverNegative'], 'C04_PP_', report_hang=True)
     pipeline.close_pool()
     return ck.finish()
 
